@@ -279,13 +279,14 @@ structure GoodSrv (s : Server) : Prop where
   cx : ∀ p ∈ s.cxes, GoodCx p.2
   plain : s.tls = false → s.cxes = []
 
-theorem newRem_good (sid : Nat) (p : Pending) (wl : Bool) : GoodCx (newRem true sid p wl) ∧ GoodRem (newRem false sid p wl) :=
+theorem newRem_good (sid : Nat) (p : Pending) (wl t r : Bool) : GoodCx (newRem true sid p wl t r) ∧ GoodRem (newRem false sid p wl t r) :=
   ⟨⟨rfl, rfl⟩, ⟨rfl, Or.inl rfl⟩⟩
 
-theorem acceptAll_good (ps : List Pending) : ∀ {s : Server}, GoodSrv s → GoodSrv (acceptAll s ps) := by
+theorem acceptAll_good (ps : List (Nat × Pending)) : ∀ {s : Server}, GoodSrv s → GoodSrv (acceptAll s ps) := by
   induction ps with
   | nil => intro s h; exact ⟨h.listening, h.ix, h.cx, h.plain⟩
-  | cons p ps ih =>
+  | cons sp ps ih =>
+    obtain ⟨sid, p⟩ := sp
     intro s h
     unfold acceptAll
     simp only
@@ -295,31 +296,57 @@ theorem acceptAll_good (ps : List Pending) : ∀ {s : Server}, GoodSrv s → Goo
       · rename_i ht
         refine ih ⟨h.listening, h.ix, ?_, fun hf => by simp [ht] at hf⟩
         rw [ht]
-        exact dictSet_all h.cx (newRem_good _ _ _).1
+        exact dictSet_all h.cx (newRem_good _ _ _ _ _).1
       · rename_i ht
         have ht' : s.tls = false := by simpa using ht
         refine ih ⟨h.listening, ?_, h.cx, h.plain⟩
         rw [ht']
-        exact dictSet_all h.ix (newRem_good _ _ _).2
+        exact dictSet_all h.ix (newRem_good _ _ _ _ _).2
 
-theorem acceptAll_tls (ps : List Pending) : ∀ (s : Server), (acceptAll s ps).tls = s.tls := by
+theorem acceptAll_meta (ps : List (Nat × Pending)) : ∀ (s : Server),
+    (acceptAll s ps).tls = s.tls ∧ (acceptAll s ps).pending = s.pending := by
   induction ps with
-  | nil => intro s; rfl
-  | cons p ps ih => intro s; unfold acceptAll; simp only; split; rw [ih]; split <;> rw [ih]
+  | nil => intro s; exact ⟨rfl, rfl⟩
+  | cons sp ps ih =>
+    obtain ⟨sid, p⟩ := sp
+    intro s; unfold acceptAll; simp only; split; exact ih _; split <;> exact ih _
 
-theorem connects_total {s : Server} (h : GoodSrv s) : (s.connects).2 = none ∧ GoodSrv (s.connects).1 := by
+/-- nothing in the listen socket's queue will make `accept()` raise -/
+def CalmQ (s : Server) : Prop := ∀ i ∈ s.pending, ∃ p, i = PItem.conn p
+
+theorem drainAccepts_calm (q : List PItem) : ∀ {s : Server}, (∀ i ∈ q, ∃ p, i = PItem.conn p) → GoodSrv s →
+    (drainAccepts s q).2 = none ∧ GoodSrv (drainAccepts s q).1 ∧ (drainAccepts s q).1.pending = [] ∧
+      (drainAccepts s q).1.tls = s.tls := by
+  induction q with
+  | nil => intro s _ h; exact ⟨rfl, ⟨h.listening, h.ix, h.cx, h.plain⟩, rfl, rfl⟩
+  | cons i q ih =>
+    intro s hq h
+    obtain ⟨p, rfl⟩ := hq i (by simp)
+    exact ih (s := { s with axes := _, nextSid := _ }) (fun j hj => hq j (by simp [hj])) ⟨h.listening, h.ix, h.cx, h.plain⟩
+
+theorem connects_total {s : Server} (h : GoodSrv s) (hq : CalmQ s) :
+    (s.connects).2 = none ∧ GoodSrv (s.connects).1 ∧ CalmQ (s.connects).1 := by
   unfold Server.connects
-  have ha := acceptAll_good s.pending h
+  have hd := drainAccepts_calm s.pending hq h
+  generalize drainAccepts s s.pending = r at hd
+  obtain ⟨s0, e⟩ := r
+  obtain ⟨he, hg, hp, ht0⟩ := hd
+  simp only at he hg hp ht0
+  subst he
+  have ha := acceptAll_good s0.axes hg
+  have hm := acceptAll_meta s0.axes s0
+  have hcq : CalmQ (acceptAll s0 s0.axes) := by
+    intro i hi; rw [hm.2, hp] at hi; cases hi
   simp only
   split
-  · have := cxLoop_total (acceptAll s s.pending).cxes (acceptAll s s.pending).ixes (acceptAll s s.pending).gone ha.cx ha.ix
+  · have := cxLoop_total (acceptAll s0 s0.axes).cxes (acceptAll s0 s0.axes).ixes (acceptAll s0 s0.axes).gone ha.cx ha.ix
     rename_i ht
-    refine ⟨this.1, ha.listening, this.2.2, this.2.1, ?_⟩
+    refine ⟨this.1, ⟨ha.listening, this.2.2, this.2.1, ?_⟩, hcq⟩
     intro hf
-    have : (acceptAll s s.pending).tls = true := by rw [acceptAll_tls]; exact ht
+    have : (acceptAll s0 s0.axes).tls = true := by rw [hm.1, ht0]; exact ht
     simp only at hf
     rw [this] at hf; cases hf
-  · exact ⟨rfl, ha⟩
+  · exact ⟨rfl, ha, hcq⟩
 
 theorem recvAll_total {s : Server} (hflag : Gen.Tcp.recvLoopCatchesOSError = true) (h : GoodSrv s) :
     (s.recvAll).2 = none ∧ GoodSrv (s.recvAll).1 ∧
@@ -338,8 +365,8 @@ theorem sendAll_total {s : Server} (hflag : Gen.Tcp.sendLoopCatchesOSError = tru
   exact ⟨this.1, ⟨h.listening, this.2.1, h.cx, h.plain⟩, this.2.2⟩
 
 theorem service_spec {s : Server} (hr : Gen.Tcp.recvLoopCatchesOSError = true)
-    (hs : Gen.Tcp.sendLoopCatchesOSError = true) (h : GoodSrv s) :
-    (s.service).2 = none ∧ GoodSrv (s.service).1 ∧
+    (hs : Gen.Tcp.sendLoopCatchesOSError = true) (h : GoodSrv s) (hq : CalmQ s) :
+    (s.service).2 = none ∧ (GoodSrv (s.service).1 ∧ CalmQ (s.service).1) ∧
       (s.service).1.ixes =
         (((s.connects).1.ixes.filterMap (keep Rem.serviceReceives)).filterMap (keep Rem.serviceSends)) := by
   unfold Server.service
@@ -348,20 +375,21 @@ theorem service_spec {s : Server} (hr : Gen.Tcp.recvLoopCatchesOSError = true)
   | none => rw [hcl] at hl; cases hl
   | some i =>
     simp only
-    have h1 := connects_total h
+    have h1 := connects_total h hq
     generalize s.connects = r1 at h1
     obtain ⟨s1, e1⟩ := r1
     simp only at h1
     rw [h1.1]
     simp only [sbind]
-    have h2 := recvAll_total hr h1.2
-    generalize s1.recvAll = r2 at h2
+    have h2 := recvAll_total hr h1.2.1
+    have hq2 : CalmQ s1.recvAll.1 := h1.2.2
+    generalize s1.recvAll = r2 at h2 hq2
     obtain ⟨s2, e2⟩ := r2
-    simp only at h2
+    simp only at h2 hq2
     rw [h2.1]
     simp only
     have h3 := sendAll_total hs h2.2.1
-    refine ⟨h3.1, h3.2.1, ?_⟩
+    refine ⟨h3.1, ⟨h3.2.1, hq2⟩, ?_⟩
     rw [h3.2.2, h2.2.2]
 
 /-! ### histories without close / reopen keep the server serviceable -/
@@ -390,15 +418,29 @@ theorem dictDel_sub {t : Table} {ca : Nat} : ∀ p ∈ dictDel t ca, p ∈ t := 
       · exact Or.inr (ih p hp)
 
 def SOp.quiet : SOp → Bool
-  | .close | .reopen | .reopenf | .closeix _ | .closeall => false
+  | .close | .reopen | .reopenf | .closeix _ | .closeall | .afault _ => false
   | _ => true
 
 theorem step_good {s : Server} (hr : Gen.Tcp.recvLoopCatchesOSError = true)
-    (hs : Gen.Tcp.sendLoopCatchesOSError = true) (op : SOp) (hq : op.quiet = true) (h : GoodSrv s) :
+    (hs : Gen.Tcp.sendLoopCatchesOSError = true) (op : SOp) (hq : op.quiet = true) (h : GoodSrv s) (hc : CalmQ s) :
     GoodSrv (s.step op).1 := by
   cases op with
   | conn p => simp only [Server.step]; split <;> exact ⟨h.listening, h.ix, h.cx, h.plain⟩
-  | svc => exact (service_spec hr hs h).2.1
+  | afault code => cases hq
+  | svc => exact (service_spec hr hs h hc).2.1.1
+  | svce =>
+    have hsp := service_spec hr hs h hc
+    simp only [Server.step]
+    generalize s.service = r at hsp
+    obtain ⟨s1, e⟩ := r
+    obtain ⟨he, ⟨hg, _⟩, _⟩ := hsp
+    simp only at he hg
+    subst he
+    refine ⟨hg.listening, ?_, hg.cx, hg.plain⟩
+    intro p hp
+    simp only [List.mem_map] at hp
+    obtain ⟨q, hq', rfl⟩ := hp
+    exact ⟨(hg.ix q hq').1, (hg.ix q hq').2⟩
   | tx ca d =>
     simp only [Server.step]
     split
@@ -456,13 +498,58 @@ theorem step_good {s : Server} (hr : Gen.Tcp.recvLoopCatchesOSError = true)
         · exact ⟨h.listening, fun p hp => h.ix p (dictDel_sub p hp), h.cx, h.plain⟩
         · exact ⟨h.listening, mapKey_all (f := fun _ => r') h.ix (fun _ _ => hsp.2), h.cx, h.plain⟩
 
+theorem step_calm {s : Server} (hr : Gen.Tcp.recvLoopCatchesOSError = true)
+    (hs : Gen.Tcp.sendLoopCatchesOSError = true) (op : SOp) (hq : op.quiet = true) (h : GoodSrv s) (hc : CalmQ s) :
+    CalmQ (s.step op).1 := by
+  cases op with
+  | conn p =>
+    simp only [Server.step]
+    split
+    · intro i hi
+      simp only [List.mem_append, List.mem_singleton] at hi
+      rcases hi with hi | rfl
+      · exact hc i hi
+      · exact ⟨p, rfl⟩
+    · exact hc
+  | afault code => cases hq
+  | svc => exact (service_spec hr hs h hc).2.1.2
+  | svce =>
+    have hsp := service_spec hr hs h hc
+    simp only [Server.step]
+    generalize s.service = r at hsp
+    obtain ⟨s1, e⟩ := r
+    obtain ⟨he, ⟨_, hq1⟩, _⟩ := hsp
+    simp only at he hq1
+    subst he
+    exact hq1
+  | tx ca d => simp only [Server.step]; split <;> exact hc
+  | rm ca => simp only [Server.step]; split <;> exact hc
+  | close => cases hq
+  | reopen => cases hq
+  | reopenf => cases hq
+  | closeix ca => cases hq
+  | closeall => cases hq
+  | wlopen => exact hc
+  | rxix ca =>
+    simp only [Server.step]
+    split
+    · exact hc
+    · split
+      · exact hc
+      · split <;> exact hc
+
 theorem run_good (hr : Gen.Tcp.recvLoopCatchesOSError = true) (hs : Gen.Tcp.sendLoopCatchesOSError = true)
-    (ops : List SOp) : ∀ {s : Server}, (∀ op ∈ ops, op.quiet = true) → GoodSrv s → GoodSrv (s.run ops) := by
+    (ops : List SOp) : ∀ {s : Server}, (∀ op ∈ ops, op.quiet = true) → GoodSrv s → CalmQ s →
+      GoodSrv (s.run ops) ∧ CalmQ (s.run ops) := by
   induction ops with
-  | nil => intro s _ h; exact h
+  | nil => intro s _ h hc; exact ⟨h, hc⟩
   | cons op ops ih =>
-    intro s hq h
-    exact ih (fun o ho => hq o (by simp [ho])) (step_good hr hs op (hq op (by simp)) h)
+    intro s hq h hc
+    exact ih (fun o ho => hq o (by simp [ho])) (step_good hr hs op (hq op (by simp)) h hc)
+      (step_calm hr hs op (hq op (by simp)) h hc)
+
+theorem start_calm (tls : Bool) : CalmQ (Server.start tls) := by
+  intro i hi; simp [Server.start, Server.reopen, Server.reclose, Server.close] at hi
 
 theorem start_good (tls : Bool) : GoodSrv (Server.start tls) :=
   ⟨rfl, by simp [Server.start, Server.reopen, Server.reclose, Server.close],
